@@ -437,17 +437,18 @@ var nopIntrinsics = []string{
 	"internal/race.ReadRange", "internal/race.WriteRange",
 }
 
-var nopSet = map[string]bool{}
+var nopSet = func() map[string]bool {
+	m := map[string]bool{}
+	for _, n := range nopIntrinsics {
+		m[n] = true
+	}
+	return m
+}()
 
 func isNopCallee(fn Value) bool {
 	fv, ok := fn.(FuncV)
 	if !ok {
 		return false
-	}
-	if len(nopSet) == 0 {
-		for _, n := range nopIntrinsics {
-			nopSet[n] = true
-		}
 	}
 	return nopSet[fv.Fn.String()]
 }
